@@ -111,7 +111,10 @@ def build_world(ctx):
     fs = w.fs
     specs = {}
     for n in FILE_NAMES:
-        specs[ZW.ZI1 + "/" + n] = ZW.simple_zone(zone_number(n))
+        # the last two are fixed-offset zones: no transitions at all, the
+        # whole difference between them sits in the type table
+        specs[ZW.ZI1 + "/" + n] = ZW.simple_zone(
+            zone_number(n), ntrans=0 if n in FILE_NAMES[-2:] else 6)
     for n in FILE2_NAMES:
         specs[ZW.ZI2 + "/" + n] = ZW.simple_zone(zone_number(n))
     specs[ZW.ZI1 + "/" + DUP_NAME] = ZW.simple_zone(zone_number(DUP_NAME))
